@@ -2,31 +2,6 @@
 From RM Require Import C11.Model.
 Open Scope Z_scope.
 
-Definition PANIC_MODIDX : Z := 1110.
-
-(* front-end (S): walk_stack -> fill_source_line_info on the context frame.
-   modules.module_at_address(instruction) is C08's table over the modules' memory_range()
-   (MinidumpModuleList::from_modules = build_indexed); a module is (base, size, has symbols).
-   Symbolizer::fill_symbol(module, frame) = SymbolFile::fill_symbol with that module's base,
-   or an error (nothing filled in) when the supplier has no symbols for it. *)
-Definition mod_table (mods : list (Z * Z * bool)) : outcome (list (range * Z)) :=
-  build_indexed (map (fun m => mk_range (fst (fst m)) (snd (fst m))) mods).
-
-Definition frame_of (p : profile) (st : symtab) (tbl : list (range * Z)) (mods : list (Z * Z * bool)) (instr : Z)
-  : outcome (option (Z * sym_out)) :=
-  match rm_get tbl instr with
-  | None => Ret None
-  | Some idx =>
-      match nth_error mods (Z.to_nat idx) with
-      | None => Panic PANIC_MODIDX
-      | Some (b, _, hs) =>
-          if hs then
-            do o <- fill_symbol p st b instr;
-            Ret (Some (idx, mk_out (o_func o) (o_src o) (frame_inlines o)))
-          else Ret (Some (idx, empty_out))
-      end
-  end.
-
 (* front-end (G): Symbolizer::get_symbol_at_address(debug_file, debug_id, address): the module
    is the pair, whose base address is 0; only the function name is returned *)
 Definition symbol_at (p : profile) (st : symtab) (address : Z) : outcome (option Z) :=
@@ -34,13 +9,13 @@ Definition symbol_at (p : profile) (st : symtab) (address : Z) : outcome (option
   Ret (match o_func o with Some (n, _, _) => Some n | None => None end).
 
 Fixpoint run_queries (p : profile) (st : symtab) (mbase : Z) (tbl : list (range * Z))
-                     (mods : list (Z * Z * bool)) (qs : list Z)
+                     (mods : list module) (qs : list Z)
   : outcome (list (sym_out * option (Z * sym_out) * option Z)) :=
   match qs with
   | [] => Ret []
   | q :: t =>
       do a <- fill_symbol p st mbase q;
-      do b <- frame_of p st tbl mods q;
+      do b <- frame_of p tbl mods q;
       do g <- symbol_at p st q;
       do rest <- run_queries p st mbase tbl mods t;
       Ret ((a, b, g) :: rest)
@@ -49,8 +24,9 @@ Fixpoint run_queries (p : profile) (st : symtab) (mbase : Z) (tbl : list (range 
 (* module 0 is (mbase, msize, true) *)
 Definition run_case (rf : raw_file) (mbase msize : Z) (extra : list (Z * Z * bool)) (qs : list Z)
   : outcome (list (sym_out * option (Z * sym_out) * option Z)) :=
-  let mods := (mbase, msize, true) :: extra in
   do st <- build_symtab rf;
+  let mods : list module :=
+    (mbase, msize, Some st) :: map (fun m : Z * Z * bool => (fst m, if snd m then Some st else None)) extra in
   do tbl <- mod_table mods;
   run_queries Debug st mbase tbl mods qs.
 
